@@ -41,6 +41,7 @@ sys.path.insert(0, os.path.join(lib.VERIF, "translators"))
 PROP = "C20"
 MODEL_TARGETS = ["Model/IOSkel.vo", "Model/IOSkelTrace.vo", "Gen/Skel.vo"]
 THEOREMS = ["C20_sound", "C20_sound_general", "C20_ret_sound", "C20_caller_untouched_sound",
+            "C20_trace_acceptor_sound", "C20_xexec_is_exec", "C20_accepted_is_clean",
             "C20_read", "C20_write", "C20_to_csv", "C20_adhoc", "C20_open_with_codecs", "C20_open_file",
             "C20_read_exec", "C20_write_exec", "C20_to_csv_exec",
             "C20_caller_untouched_write", "C20_caller_untouched_to_csv", "C20_no_other_open_sites"]
@@ -507,7 +508,9 @@ Definition run (i : list N) : list N :=
           else if str_eqb q (s2l "untouched") then bool_to_str (caller_handles_untouched sk)
           else if str_eqb q (s2l "trace") then
             match rest with
-            | e :: l :: _ => bool_to_str (accepts sk (evs l) (str_eqb e (s2l "raise")))
+            | e :: l :: _ =>
+                let raised := str_eqb e (s2l "raise") in
+                bool_to_str (accepts sk (evs l) raised) ++ bool_to_str (accepted_runs_clean sk (evs l) raised)
             | _ => [63]
             end
           else if str_eqb q (s2l "predicts") then
@@ -515,6 +518,7 @@ Definition run (i : list N) : list N :=
             | e :: l :: _, Some r =>
                 let ex := if str_eqb e (s2l "raise") then rR r else oj (rN r) (rT r) in
                 bool_to_str (subl (hids l) (show_exit ex))
+            | _ :: _ :: _, None => [84]      (* analysis rejected the skeleton: nothing is excluded *)
             | _, _ => [63]
             end
           else [63]
@@ -554,13 +558,13 @@ def enumerate_all(d, ctx, res, scenarios=None):
             stats["sites"].update(o.sites)
             leaked_h = tuple(sorted(o.leaked_sites))
             stats["observed"].add((fn, "raise" if o.exc else "return", leaked_h))
-            stats["traces"].setdefault((fn, "raise" if o.exc else "return", tuple(o.events)), (name, k))
+            stats["traces"].setdefault((fn, "raise" if o.exc else "return", tuple(o.events), bool(o.leaked)), (name, k))
             if o.leaked:
                 stats["leaks"].setdefault(fn, []).append((name, k))
             if o.caller_closed:
                 stats["caller_closed"].setdefault(fn, []).append((name, k))
             if o.problems:
-                res.oracle_violations.append({"payload": {"scenario": name, "k": k, "call_kind": kind,
+                res.oracle_violations.append({"payload": {"scenario": name, "k": k, "rows": [ROWS["n"], ROWS["big"]], "call_kind": kind,
                                                           "fault": ("OSError injected at low-level operation %d (%s)" % (k, o.fired)) if o.fired
                                                           else "no injected fault (input-induced failure only)",
                                                           "outcome": ("raised " + o.exc) if o.exc else "returned"},
@@ -576,6 +580,14 @@ def enumerate_all(d, ctx, res, scenarios=None):
 def run(ctx):
     import skeleton
     res = lib.Result()
+    ROWS["n"], ROWS["big"] = (5, 40)
+    # replays of repaired findings run first (corpus/C20_*.json): F14
+    import glob
+    for path in sorted(glob.glob(os.path.join(lib.VERIF, "corpus", "C20_*.json"))):
+        payload = json.load(open(path))["payload"]
+        bad, text = replay(payload)
+        if bad:
+            res.oracle_violations.append({"payload": payload, "what": "corpus %s: %s" % (os.path.basename(path), text)})
     ROWS["n"], ROWS["big"] = (60, 300) if ctx.thorough else (5, 40)
     with tempfile.TemporaryDirectory(prefix="c20_") as d:
         make_inputs(d)
@@ -631,13 +643,14 @@ def run(ctx):
         var_hid = skeleton.variable_hids(REPO)
     except Exception:
         var_hid = {}
-    for (fn, ex, evs), (name, k) in sorted(stats["traces"].items(), key=lambda kv: (kv[1], kv[0][1])):
+    for (fn, ex, evs, leaked), (name, k) in sorted(stats["traces"].items(), key=lambda kv: (kv[1], kv[0][1])):
         toks = []
         for kind_, site in evs:
             h = var_hid.get((fn, "file_ref")) if site == "caller" else site_table.get(site)
             toks.append("%s%s" % (kind_, 999 if h is None else h))
-        add(lib.fields("trace", fn, ex, ",".join(toks)), "T",
-            "skel_%s has a run with the events %s ending in %s (first seen: %s, k=%d)" % (fn, " ".join(toks) or "(none)", ex, name, k))
+        add(lib.fields("trace", fn, ex, ",".join(toks)), "T" + ("F" if leaked else "T"),
+            "skel_%s has a run with the events %s ending in %s, and that run ends %s (first seen: %s, k=%d)" % (
+                fn, " ".join(toks) or "(none)", ex, "with a handle open" if leaked else "owning nothing open", name, k))
     if ctx.build.model_ok:
         mism, err = lib.run_coq_cases("c20", [], RUN_DEF, cases)
         res.corr_error = err
@@ -666,6 +679,7 @@ def replay(payload):
     name, k = payload["scenario"], int(payload["k"])
     if name not in SC_BY_NAME:
         return True, "unknown scenario %r" % name
+    ROWS["n"], ROWS["big"] = payload.get("rows", [5, 40])
     with tempfile.TemporaryDirectory(prefix="c20_") as d:
         make_inputs(d)
         o = run_one(d, name, k)
